@@ -777,6 +777,65 @@ pub fn case_line(uw: &c07::World, ops: &[Op], with_listener: bool) -> String {
     )
 }
 
+/// Datagrams that arrive for an HTTP/1.1 client faster than its session drains them: the datagram sink of that codec holds
+/// one, the rest is dropped. What was dropped was not relayed: the peer -> client counter of the protocol must equal the
+/// payload bytes of the 6.4 records the client was actually sent (no model here: which ones are dropped is scheduling).
+fn h1_datagram_bursts(ctx: &mut Ctx, tw: &TcpWorld, uw: &c07::World, up_is_outbound: bool) {
+    let rt = tokio::runtime::Builder::new_current_thread().enable_all().start_paused(true).build().unwrap();
+    let r: Result<(i64, usize, usize), String> = rt.block_on(async {
+        let core = make_core(None);
+        let mut h = Hist { core, tw, uw, sess: vec![], tuns: vec![], icmp_id: 0x2001, icmp_seq: 0, _icmp: None };
+        h.settle().await;
+        for op in [Op::SessOpen(1), Op::TunOpen(0, 'U'), Op::UdpUp(0, 0, 10)] {
+            h.apply(&op).await.map_err(|e| format!("{}: {}", op_tok(&op), e))?;
+            h.settle().await;
+        }
+        let mut sent = 0usize;
+        for round in 0..10usize {
+            for k in 0..3usize {
+                let n = 100 + round + k;
+                h.apply(&Op::UdpDown(0, 0, n)).await?;
+                sent += n;
+            }
+            h.settle().await;
+        }
+        let series = parse_series(&verif::metrics_text(&h.core));
+        let counted = if up_is_outbound { series.in1 } else { series.out1 };
+        let got = match &h.sess[0] {
+            Sess::H1(x) => x.received.clone(),
+            _ => vec![],
+        };
+        let body = got.windows(4).position(|w| w == b"\r\n\r\n").map(|p| got[p + 4..].to_vec()).ok_or("no response head on the _udp2 tunnel")?;
+        // 6.4 records: 4-byte length (excluding itself), 16+2 source, 16+2 destination, payload
+        let (mut pos, mut delivered) = (0usize, 0usize);
+        while pos + 4 <= body.len() {
+            let len = u32::from_be_bytes([body[pos], body[pos + 1], body[pos + 2], body[pos + 3]]) as usize;
+            if len < 36 || pos + 4 + len > body.len() {
+                return Err(format!("the client's stream does not parse as 6.4 records at byte {}", pos));
+            }
+            delivered += len - 36;
+            pos += 4 + len;
+        }
+        Ok((counted, delivered, sent))
+    });
+    match r {
+        Ok((counted, delivered, sent)) => {
+            ctx.stat("h1_datagram_bursts");
+            ctx.stat(if delivered < sent { "h1_datagram_bursts_with_drops" } else { "h1_datagram_bursts_all_delivered" });
+            if counted != delivered as i64 {
+                ctx.oracle_failure(
+                    "counter_vs_delivered",
+                    &format!(
+                        "HTTP/1.1 _udp2 tunnel, ten bursts of three datagrams from the peer ({} payload bytes): the client was sent records with {} payload bytes, the peer -> client traffic counter of http1 says {}",
+                        sent, delivered, counted
+                    ),
+                );
+            }
+        }
+        Err(e) => ctx.oracle_failure("harness", &format!("h1 datagram bursts: {}", e)),
+    }
+}
+
 pub fn run(ctx: &mut Ctx) {
     let tw = make_tcp_world();
     let uw = c07::make_world(2);
@@ -802,6 +861,7 @@ pub fn run(ctx: &mut Ctx) {
         }
     };
     ctx.notes.push(format!("client->peer bytes feed {}", if up_is_outbound { "outbound_traffic_bytes" } else { "inbound_traffic_bytes" }));
+    h1_datagram_bursts(ctx, &tw, &uw, up_is_outbound);
     let mut hist: Vec<Vec<Op>> = vec![];
     let so = Op::SessOpen;
     hist.push(vec![so(2), Op::TunOpen(0, 'T'), Op::Up(0, 100), Op::Down(0, 7), Op::TunClose(0, 'g'), Op::SessClose(0)]);
